@@ -321,10 +321,8 @@ theorem hBlock_nowedge (e : Env) (s : State) (L : Nat) (inp : Bytes) : NoWedge (
         · unfold NoWedge; simp
         · split
           · unfold NoWedge; simp
-          · split
-            · unfold NoWedge; simp
-            · unfold NoWedge; simp
-            · split <;> (unfold NoWedge; simp)
+          · unfold NoWedge; simp
+          · split <;> (unfold NoWedge; simp)
 
 theorem dispatch_nowedge (e : Env) (s : State) (h : Handler) (L : Nat) (ck body : Bytes) :
     NoWedge (dispatch e s h L ck body) := by
